@@ -27,7 +27,7 @@ Theorem C17_request_uri_client_bound_and_time_limited :
       {| az_rtype := RCode; az_client := r_client pr; az_redirect := r_redirect pr; az_scopes := r_rscopes pr; az_granted := az_granted a;
          az_aud := r_raud pr; az_gaud := az_gaud a; az_subject := az_subject a;
          az_challenge := if String.eqb (r_challenge pr) "" then az_challenge a else r_challenge pr;
-         az_method := if String.eqb (r_method pr) "" then az_method a else r_method pr |})) = "".
+         az_method := if String.eqb (r_method pr) "" then az_method a else r_method pr; az_mode := r_mode pr |})) = "".
 Proof. exact authorize_par_ok_facts. Qed.
 Print Assumptions C17_request_uri_client_bound_and_time_limited.
 
@@ -56,3 +56,11 @@ Theorem C17_enforcement_refuses_requests_without_request_uri :
   forall cfg s a, cf_par_enforced cfg = true -> authorize cfg s a = (s, err_obs "invalid_request").
 Proof. exact enforced_par_refuses_plain_authorize. Qed.
 Print Assumptions C17_enforcement_refuses_requests_without_request_uri.
+
+(* the authorization proceeds in the pushed response mode: the answer is written in it, whatever response_mode the
+   query next to the request_uri names ("query" is the code flow's default and is not reported) *)
+Theorem C17_pushed_response_mode_authoritative : forall cfg s cp uri a k pr,
+  key_of s uri = Some k -> par (st s) k = Some pr -> r_mode pr <> "" -> r_mode pr <> "query" ->
+  o_err (snd (authorize_par cfg s cp uri a)) = "" -> o_scopes (snd (authorize_par cfg s cp uri a)) = [r_mode pr].
+Proof. exact pushed_response_mode_authoritative. Qed.
+Print Assumptions C17_pushed_response_mode_authoritative.
